@@ -112,6 +112,10 @@ def run(ctx: Ctx) -> Result:
     # builder locks (default threshold 60, flags default -> usable with run_auth_scripts)
     build_lines, build_expect = [], []
     tss = [1, 127, 128, 255, 256, 65535, 65536, 2**31 - 1, vmrun.NOW, vmrun.NOW + 10] + [rng.getrandbits(40) + 3 for _ in range(ctx.n(4, 40))]
+    # bounds a double cannot represent: R + 3 with R a multiple of 4096 above 2^53 (the pinned float clock can be set to R exactly)
+    big_R = [2**53 + 4096, 2**62 + 4096, 2**63 - 8192] + [((rng.getrandbits(63) | (1 << 54)) >> 12) << 12 for _ in range(ctx.n(3, 20))]
+    big_now = {R + 3: R for R in big_R}
+    tss += list(big_now)
     for ts in tss:
         for verify in (False, True):
             for name, mk, args in (('ts_after', T.make_timestamp_after_lock, (ts,)), ('ts_before', T.make_timestamp_before_lock, (ts,)),
@@ -126,7 +130,7 @@ def run(ctx: Ctx) -> Result:
         for dt in (-2, -1, 0, 1, 2, 4, 5, 6):
             t = ts + dt
             if t < 0: continue
-            for now in (t, t - 59, t - 60, t - 61, t + 100):
+            for now in ((t, t - 59, t - 60, t - 61, t + 100) if ts not in big_now else (big_now[ts],)):
                 if now < 0: continue
                 cfg = vmrun.Cfg(now=now)
                 cache = {'timestamp': t}
